@@ -177,6 +177,46 @@ def norm_bool(d):
     t = d.get('type', {}).get('qualType', '')
     return t.replace('const', '').strip() == 'bool'
 
+# type-state transitions: what each clause records for the guards of later clauses (the injector class templates and
+# the initial matcher_info).  (template, specialisation key or None, member) -> documented value as a C expression
+INJECTORS = {
+    ('matcher_info', None, 'upper_call_limit'): '1', ('matcher_info', None, 'throws'): '0', ('matcher_info', None, 'call_limit_set'): '0',
+    ('matcher_info', None, 'sequence_set'): '0', ('matcher_info', None, 'side_effects'): '0',
+    ('throw_injector', None, 'throws'): '1', ('sideeffect_injector', None, 'side_effects'): '1', ('sequence_injector', None, 'sequence_set'): '1',
+    ('call_limit_injector', None, 'call_limit_set'): '1', ('call_limit_injector', None, 'upper_call_limit'): 'S.H',
+    ('call_limit_injector', '0', 'call_limit_set'): '1', ('call_limit_injector', '0', 'upper_call_limit'): '0',
+}
+
+def injector_facts(idx):
+    """[(description, extracted C expr or None, expected C expr)]"""
+    found = {}
+    def val(e):
+        k = e.get('kind')
+        if k in ('ImplicitCastExpr', 'ConstantExpr', 'ParenExpr'): return val(e['inner'][-1])
+        if k == 'CXXBoolLiteralExpr': return '1' if e['value'] else '0'
+        if k == 'IntegerLiteral': return e['value']
+        if k == 'DeclRefExpr' and e['referencedDecl'].get('kind') == 'NonTypeTemplateParmDecl' and e['referencedDecl'].get('name') == 'H': return 'S.H'
+        raise Break('injector member initialiser of kind %s' % k)
+    for i, n in idx.by_id.items():
+        if n.get('kind') in ('ClassTemplateDecl', 'ClassTemplatePartialSpecializationDecl') and n.get('name') in set(k[0] for k in INJECTORS):
+            if n['kind'] == 'ClassTemplateDecl':
+                recs = [(None, c) for c in n.get('inner', []) if c.get('kind') == 'CXXRecordDecl']
+            else:
+                args = idx.targs(n)
+                recs = [(args[-1] if args else '?', n)]
+            for key, r in recs:
+                for v in r.get('inner', []):
+                    if v.get('kind') == 'VarDecl' and v.get('name'):
+                        init = [c for c in v.get('inner', []) if isinstance(c, dict) and c.get('kind') and not c['kind'].endswith('Attr')]
+                        if init: found[(n['name'], key, v['name'])] = val(init[-1])
+    out = []
+    for k, exp in INJECTORS.items():
+        desc = '%s%s::%s records %s' % (k[0], '<Parent,%s>' % k[1] if k[1] else '', k[2], exp)
+        out.append((desc, found.get(k), exp))
+    for k in found:
+        if k not in INJECTORS: raise Break('type-state member without oracle entry: %s' % (k,))
+    return out
+
 def generate(idx, repo, oracle):
     """returns C source text; raises Break"""
     ex = Extract(idx, repo)
@@ -206,5 +246,8 @@ def generate(idx, repo, oracle):
             src.append('  __CPROVER_assert(0, "[C19] GUARD %s");' % desc.replace('"', "'"))
         else:
             src.append('  __CPROVER_assert(g_%s.ok[%d] == (%s), "[C19] GUARD %s");' % (alias, k, orc, desc.replace('"', "'")))
+    for desc, got, exp in injector_facts(idx):
+        if got is None: src.append('  __CPROVER_assert(0, "[C19] TYPESTATE %s: member MISSING");' % desc)
+        else: src.append('  __CPROVER_assert((%s) == (%s), "[C19] TYPESTATE %s");' % (got, exp, desc))
     src.append('  __CPROVER_assert(0, "REACH! guards.end");\n  return 0;\n}')
     return '\n'.join(src) + '\n', len(harness)
